@@ -22,6 +22,7 @@ import DosModel.Proofs.HandlersNode
 import DosModel.Proofs.HandlersIso
 import DosModel.Proofs.HandlersChain
 import DosModel.Proofs.HandlersDoc
+import DosModel.Proofs.HandlersLive
 
 namespace Dos.Props.C12
 open Dos Dos.Handlers
@@ -388,6 +389,21 @@ theorem dataParse_refuses_nested (k : Nat) (rest : Bytes) (h : k > maxDocumentDe
   · simp [dataParseJson, jsonDepthExceeds_nested _ _ _ h, docGuard, Cfg.all]
   · simp [dataParseXml, xmlDepthExceeds, chain_height, h, docGuard, Cfg.all]
 example : 1001 > maxDocumentDepth := by decide
+
+/-- **the serving loops are input-driven** (model level): whatever the history, every loop model produces exactly
+one outcome per event taken — there is no iteration that takes no event, so junk cannot make a MODEL loop spin.
+That the Go loops have this shape is a fact about the code, not proved here (meta "partial"): the spin of
+decryptPipe on a closed channel (/repo 6be4efc) was outside it and is watched by the CPU probe `fzspin`. -/
+theorem handlers_consume_input (sv : List SessEv) (dv : List DkgOp) (n me : Nat) (qv : List QEv)
+    (valid : Bytes → Bytes → Bool) (t : Nat) (rv : List (Option Sign)) (pv : List DispEv) (cv : List ConnEv)
+    (st : EvSt) (hv : List ChainIn) :
+    (sessRun Cfg.current {} sv).2.length = sv.length ∧ (dkgRun Cfg.current (DkgSt.init n me) dv).2.length = dv.length
+    ∧ (qRun Cfg.current {} qv).2.length = qv.length ∧ (rsRun Cfg.current valid t n {} rv).2.length = rv.length
+    ∧ (dispRun Cfg.current {} pv).2.length = pv.length ∧ (connRun Cfg.current {} cv).2.length = cv.length
+    ∧ (chainRun Cfg.current me st hv).2.length = hv.length :=
+  ⟨sessRun_len _ _ _, dkgRun_len _ _ _, qRun_len _ _ _, rsRun_len _ _ _ _ _ _, dispRun_len _ _ _, connRun_len _ _ _,
+   chainRun_len _ _ _ _⟩
+example : (qRun Cfg.all {} [.other, .sig [1], .reg [1], .sig [1]]).2.length = 4 := by decide
 
 theorem messageDispatch_total (f : Feed) : (messageDispatch Cfg.current f).isPanic = false := by
   rw [guards_present]; exact Handlers.messageDispatch_total f
